@@ -94,3 +94,12 @@ Definition route_mis_y (cs : list route_case) : list N :=
 Definition route_mis_g (cs : list route_case) : list N :=
   flat_map (fun c : route_case => let '(id, _, _, _, _, ref) := c in
     if Bool.eqb g_route_confined ref then [] else [id]) cs.
+
+(** the yaegi command: value of the YAEGI_* variable (None = unset), explicit flag, was the opt-in set loaded *)
+Definition cli_case := (N * option str * option bool * bool * bool)%type.
+Definition cli_mis_y (cs : list cli_case) : list N :=
+  flat_map (fun c : cli_case => let '(id, v, f, impl, _) := c in
+    if Bool.eqb (y_cli_on sb_cli_env_defaults v f) impl then [] else [id]) cs.
+Definition cli_mis_g (cs : list cli_case) : list N :=
+  flat_map (fun c : cli_case => let '(id, v, f, _, ref) := c in
+    if Bool.eqb (g_cli_on v f) ref then [] else [id]) cs.
